@@ -15,10 +15,13 @@ type rawCase struct {
 	Stratum string
 	Stream  []byte // valid only during the callback
 	Direct  int    // -1: ReadPacket(stream); 0..15: UnmarshalBinary on the zero value of that type
+	// Reader: 0 = bytes.Reader; k > 0 = env.Kind(k) over a scripted source
+	// (only used by checks that vary the reader implementation)
+	Reader int
 }
 
 func (c *rawCase) toCase(harness string) core.Case {
-	return core.Case{Harness: harness, Frame: hexOf(c.Stream), Params: map[string]any{"direct": c.Direct, "stratum": c.Stratum}}
+	return core.Case{Harness: harness, Frame: hexOf(c.Stream), Params: map[string]any{"direct": c.Direct, "stratum": c.Stratum, "reader": c.Reader}}
 }
 
 func rawFromCase(c core.Case) *rawCase {
@@ -26,7 +29,7 @@ func rawFromCase(c core.Case) *rawCase {
 	if v, ok := c.Params["direct"]; ok {
 		d = int(v.(float64))
 	}
-	return &rawCase{Stratum: paramStr(c.Params, "stratum"), Stream: unhex(c.Frame), Direct: d}
+	return &rawCase{Stratum: paramStr(c.Params, "stratum"), Stream: unhex(c.Frame), Direct: d, Reader: paramInt(c.Params, "reader")}
 }
 
 // VFrame is one frame of the valid corpus V with its field map.
@@ -174,219 +177,243 @@ func enumRaw(x *core.Ctx, maxBody int, fn func(c *rawCase) bool) {
 	}
 	buf := make([]byte, 0, 64)
 
-	// F1: every byte string of length <= 3 as a stream
-	if x.Mine() {
-		if !call("F1.stream.len0", nil, -1) {
-			return
-		}
-	}
-	for b0 := 0; b0 < 256; b0++ {
-		if !x.Mine() {
-			continue
-		}
-		if x.Expired() {
-			return
-		}
-		if !call("F1.stream.len1", []byte{byte(b0)}, -1) {
-			return
-		}
-		for b1 := 0; b1 < 256; b1++ {
-			buf = append(buf[:0], byte(b0), byte(b1))
-			if !call("F1.stream.len2", buf, -1) {
+	// Order: the corpus-driven families and the dense strata first (they are
+	// small and reach deep), the big raw odometers F1/F2 last, so that a
+	// deadline on a loaded machine cuts the cheapest-to-lose part.
+	raw := func() {
+		// F1: every byte string of length <= 3 as a stream
+		if x.Mine() {
+			if !call("F1.stream.len0", nil, -1) {
 				return
 			}
 		}
-		if x.Thorough() {
-			for b1 := 0; b1 < 256; b1++ {
-				for b2 := 0; b2 < 256; b2++ {
-					buf = append(buf[:0], byte(b0), byte(b1), byte(b2))
-					if !call("F1.stream.len3", buf, -1) {
-						return
-					}
-				}
-			}
-		} else {
-			for _, b1 := range f1Alphabet {
-				for _, b2 := range f1Alphabet {
-					buf = append(buf[:0], byte(b0), b1, b2)
-					if !call("F1.stream.len3.alphabet", buf, -1) {
-						return
-					}
-				}
-			}
-		}
-	}
-	// F1: every byte string of length <= 2 to every UnmarshalBinary
-	for t := 0; t < 16; t++ {
-		if !x.Mine() {
-			continue
-		}
-		if !call("F1.direct.len0", nil, t) {
-			return
-		}
 		for b0 := 0; b0 < 256; b0++ {
-			if !call("F1.direct.len1", []byte{byte(b0)}, t) {
+			if !x.Mine() {
+				continue
+			}
+			if x.Expired() {
+				return
+			}
+			if !call("F1.stream.len1", []byte{byte(b0)}, -1) {
 				return
 			}
 			for b1 := 0; b1 < 256; b1++ {
 				buf = append(buf[:0], byte(b0), byte(b1))
-				if !call("F1.direct.len2", buf, t) {
+				if !call("F1.stream.len2", buf, -1) {
 					return
 				}
 			}
-		}
-	}
-
-	// F2: first bytes x bodies over the 12-letter alphabet, consistent length
-	n := len(f2Alphabet)
-	body := make([]byte, 0, 16)
-	for _, fb := range f2FirstBytes() {
-		for l := 0; l <= maxBody; l++ {
-			// unit: (first byte, length, first letter)
-			first := n
-			if l == 0 {
-				first = 1
-			}
-			for a0 := 0; a0 < first; a0++ {
-				if !x.Mine() {
-					continue
-				}
-				if x.Expired() {
-					return
-				}
-				total := 1
-				for i := 1; i < l; i++ {
-					total *= n
-				}
-				stratum := fmt.Sprintf("F2.body%d", l)
-				for rest := 0; rest < total; rest++ {
-					body = body[:0]
-					if l > 0 {
-						body = append(body, f2Alphabet[a0])
+			if x.Thorough() {
+				for b1 := 0; b1 < 256; b1++ {
+					for b2 := 0; b2 < 256; b2++ {
+						buf = append(buf[:0], byte(b0), byte(b1), byte(b2))
+						if !call("F1.stream.len3", buf, -1) {
+							return
+						}
 					}
-					r := rest
-					for i := 1; i < l; i++ {
-						body = append(body, f2Alphabet[r%n])
-						r /= n
-					}
-					buf = append(buf[:0], fb, byte(l))
-					buf = append(buf, body...)
-					if !call(stratum, buf, -1) {
-						return
-					}
-					if l <= 4 && fb&0x0f == 0 {
-						if !call("F2.direct", body, int(fb>>4)) {
+				}
+			} else {
+				for _, b1 := range f1Alphabet {
+					for _, b2 := range f1Alphabet {
+						buf = append(buf[:0], byte(b0), b1, b2)
+						if !call("F1.stream.len3.alphabet", buf, -1) {
 							return
 						}
 					}
 				}
 			}
 		}
-	}
-
-	// F3, F4, F5 over the valid corpus
-	for _, v := range validCorpus() {
-		if !x.Mine() {
-			continue
-		}
-		if x.Expired() {
-			return
-		}
-		hdr := 0
-		for _, f := range v.Fields {
-			if f.Kind == spec.FRemLen {
-				hdr = f.End
-			}
-		}
-		bodyv := v.B[hdr:]
-		// the valid frame itself
-		if !call("V.valid", v.B, -1) {
-			return
-		}
-		// F3a: the stream simply ends
-		for k := 0; k < len(v.B); k++ {
-			if !call("F3.prefix.stream-ends", v.B[:k], -1) {
-				return
-			}
-		}
-		// F3b: remaining length rewritten to the shortened size
-		for k := 0; k < len(bodyv); k++ {
-			m := append([]byte{v.B[0]}, spec.AppendVarint(nil, uint32(k))...)
-			m = append(m, bodyv[:k]...)
-			if !call("F3.prefix.remlen-rewritten", m, -1) {
-				return
-			}
-			if !call("F3.prefix.direct", bodyv[:k], int(v.B[0]>>4)) {
-				return
-			}
-		}
-		// F4: every length field raised / lowered
-		for _, f := range v.Fields {
-			for _, m := range lengthMutants(v.B, hdr, f) {
-				if !call("F4.length."+kindName(f.Kind), m, -1) {
-					return
-				}
-			}
-		}
-		// F6: one more property inserted next to every property (and into an
-		// empty property section): every defined identifier with a zero and a
-		// non-zero value — duplicates, repeated strings of other lengths,
-		// identifiers the packet does not allow; lengths kept consistent.
-		for _, m := range propertyInsertions(v, hdr) {
-			if !call("F6.property-inserted", m, -1) {
-				return
-			}
-		}
-		// F7: every single byte of the body replaced (quick: by each of the
-		// 12 alphabet letters; thorough: by every value): content that is
-		// special to the decoder (ill-formed UTF-8, flag bytes, identifiers)
-		for pos := hdr; pos < len(v.B); pos++ {
-			orig := v.B[pos]
-			m := append([]byte{}, v.B...)
-			if x.Thorough() {
-				for val := 0; val < 256; val++ {
-					if byte(val) == orig {
-						continue
-					}
-					m[pos] = byte(val)
-					if !call("F7.byte-substituted", m, -1) {
-						return
-					}
-				}
-			} else {
-				for _, val := range f2Alphabet {
-					if val == orig {
-						continue
-					}
-					m[pos] = val
-					if !call("F7.byte-substituted", m, -1) {
-						return
-					}
-				}
-			}
-		}
-		// F5: cross-type decoding
+		// F1: every byte string of length <= 2 to every UnmarshalBinary
 		for t := 0; t < 16; t++ {
-			if byte(t) == v.B[0]>>4 {
+			if !x.Mine() {
 				continue
 			}
-			flagsets := []byte{spec.DefaultFlags(byte(t))}
-			if t == 3 {
-				flagsets = []byte{0, 2, 4, 6, 9}
-			}
-			for _, fl := range flagsets {
-				m := append([]byte{byte(t<<4) | fl}, v.B[1:]...)
-				if !call("F5.cross-type", m, -1) {
-					return
-				}
-			}
-			if !call("F5.cross-type.direct", bodyv, t) {
+			if !call("F1.direct.len0", nil, t) {
 				return
 			}
+			for b0 := 0; b0 < 256; b0++ {
+				if !call("F1.direct.len1", []byte{byte(b0)}, t) {
+					return
+				}
+				for b1 := 0; b1 < 256; b1++ {
+					buf = append(buf[:0], byte(b0), byte(b1))
+					if !call("F1.direct.len2", buf, t) {
+						return
+					}
+				}
+			}
 		}
+
+		// F2: first bytes x bodies over the 12-letter alphabet, consistent length
+		n := len(f2Alphabet)
+		body := make([]byte, 0, 16)
+		for _, fb := range f2FirstBytes() {
+			for l := 0; l <= maxBody; l++ {
+				// unit: (first byte, length, first letter)
+				first := n
+				if l == 0 {
+					first = 1
+				}
+				for a0 := 0; a0 < first; a0++ {
+					if !x.Mine() {
+						continue
+					}
+					if x.Expired() {
+						return
+					}
+					total := 1
+					for i := 1; i < l; i++ {
+						total *= n
+					}
+					stratum := fmt.Sprintf("F2.body%d", l)
+					for rest := 0; rest < total; rest++ {
+						body = body[:0]
+						if l > 0 {
+							body = append(body, f2Alphabet[a0])
+						}
+						r := rest
+						for i := 1; i < l; i++ {
+							body = append(body, f2Alphabet[r%n])
+							r /= n
+						}
+						buf = append(buf[:0], fb, byte(l))
+						buf = append(buf, body...)
+						if !call(stratum, buf, -1) {
+							return
+						}
+						if l <= 4 && fb&0x0f == 0 {
+							if !call("F2.direct", body, int(fb>>4)) {
+								return
+							}
+						}
+					}
+				}
+			}
+		}
+
+	}
+	corpus := func() bool {
+		// F3, F4, F5 over the valid corpus
+		for _, v := range validCorpus() {
+			if !x.Mine() {
+				continue
+			}
+			if x.Expired() {
+				return false
+			}
+			hdr := 0
+			for _, f := range v.Fields {
+				if f.Kind == spec.FRemLen {
+					hdr = f.End
+				}
+			}
+			bodyv := v.B[hdr:]
+			// the valid frame itself
+			if !call("V.valid", v.B, -1) {
+				return false
+			}
+			// F3a: the stream simply ends
+			for k := 0; k < len(v.B); k++ {
+				if !call("F3.prefix.stream-ends", v.B[:k], -1) {
+					return false
+				}
+			}
+			// F3b: remaining length rewritten to the shortened size
+			for k := 0; k < len(bodyv); k++ {
+				m := append([]byte{v.B[0]}, spec.AppendVarint(nil, uint32(k))...)
+				m = append(m, bodyv[:k]...)
+				if !call("F3.prefix.remlen-rewritten", m, -1) {
+					return false
+				}
+				if !call("F3.prefix.direct", bodyv[:k], int(v.B[0]>>4)) {
+					return false
+				}
+			}
+			// F4: every length field raised / lowered
+			for _, f := range v.Fields {
+				for _, m := range lengthMutants(v.B, hdr, f) {
+					if f.Kind == spec.FRemLen && !strings.HasSuffix(v.Name, ".min") && !strings.HasSuffix(v.Name, ".rich") {
+						// a declared remaining length of hundreds of megabytes
+						// makes the decoder reserve that much before it finds
+						// the stream too short: tried on two frames per type,
+						// not on all of V (same code path, 30 ms each)
+						if rl, _, ok := spec.ReadVarint(m[1:]); ok && rl > 4<<20 {
+							continue
+						}
+					}
+					if !call("F4.length."+kindName(f.Kind), m, -1) {
+						return false
+					}
+				}
+			}
+			// F6: one more property inserted next to every property (and into an
+			// empty property section): every defined identifier with a zero and a
+			// non-zero value — duplicates, repeated strings of other lengths,
+			// identifiers the packet does not allow; lengths kept consistent.
+			for _, m := range propertyInsertions(v, hdr) {
+				if !call("F6.property-inserted", m, -1) {
+					return false
+				}
+			}
+			// F7: every single byte of the body replaced (quick: by each of the
+			// 12 alphabet letters; thorough: by every value): content that is
+			// special to the decoder (ill-formed UTF-8, flag bytes, identifiers)
+			for pos := hdr; pos < len(v.B); pos++ {
+				orig := v.B[pos]
+				m := append([]byte{}, v.B...)
+				if x.Thorough() {
+					for val := 0; val < 256; val++ {
+						if byte(val) == orig {
+							continue
+						}
+						m[pos] = byte(val)
+						if !call("F7.byte-substituted", m, -1) {
+							return false
+						}
+					}
+				} else {
+					for _, val := range f2Alphabet {
+						if val == orig {
+							continue
+						}
+						m[pos] = val
+						if !call("F7.byte-substituted", m, -1) {
+							return false
+						}
+					}
+				}
+			}
+			// F5: cross-type decoding
+			for t := 0; t < 16; t++ {
+				if byte(t) == v.B[0]>>4 {
+					continue
+				}
+				flagsets := []byte{spec.DefaultFlags(byte(t))}
+				if t == 3 {
+					flagsets = []byte{0, 2, 4, 6, 9}
+				}
+				for _, fl := range flagsets {
+					m := append([]byte{byte(t<<4) | fl}, v.B[1:]...)
+					if !call("F5.cross-type", m, -1) {
+						return false
+					}
+				}
+				if !call("F5.cross-type.direct", bodyv, t) {
+					return false
+				}
+			}
+		}
+		return true
+	}
+	if !corpus() {
+		return
 	}
 	// F8: dense strata
 	enumDenseFrames(x, fn)
+	if x.Expired() {
+		return
+	}
+	raw()
 }
 
 // enumDenseFrames: family F8 — the frames (specification encoder) of the
